@@ -309,6 +309,17 @@ pub fn op_hand(mode: &str, np: usize, script: &str) -> String {
                                 (toks[1].parse().unwrap(), toks[2].parse().unwrap(), toks[3].parse().unwrap(), toks[4].parse().unwrap());
                             let c = content(idx, plen);
                             Piece::new(idx, begin, c[begin..begin + len].to_vec()).data()
+                        } else if toks[0] == "px" {
+                            // an answer to the request (begin, len) that carries the bytes found at `src` of the same piece
+                            let (idx, plen, begin, len, src): (usize, usize, usize, usize, usize) = (
+                                toks[1].parse().unwrap(),
+                                toks[2].parse().unwrap(),
+                                toks[3].parse().unwrap(),
+                                toks[4].parse().unwrap(),
+                                toks[5].parse().unwrap(),
+                            );
+                            let c = content(idx, plen);
+                            Piece::new(idx, begin, c[src..src + len].to_vec()).data()
                         } else {
                             impl_data(&m_of_toks(&toks))
                         };
@@ -633,7 +644,16 @@ pub fn gen_script(r: &mut Rng, flavor: &str) -> String {
                         let done = s.outstanding.is_empty() && s.next == s.blocks.len();
                         let (idx, plen) = (s.idx, s.len);
                         let corrupt = r.chance(1, 25);
-                        let frame = if corrupt {
+                        // crossed payloads: a valid answer to this request carrying another block's bytes of the piece
+                        let crossed: Option<usize> = if r.chance(1, 12) {
+                            let srcs: Vec<usize> = s.blocks.iter().filter(|(sb, sl)| *sb != b && *sl >= l).map(|(sb, _)| *sb).collect();
+                            if srcs.is_empty() { None } else { Some(*r.pick(&srcs)) }
+                        } else {
+                            None
+                        };
+                        let frame = if let Some(src) = crossed {
+                            format!("f:px,{},{},{},{},{}", idx, plen, b, l, src)
+                        } else if corrupt {
                             format!("f:pc,{},{},{}", idx, b, hex(&r.bytes(l)))
                         } else {
                             format!("f:pb,{},{},{},{}", idx, plen, b, l)
